@@ -349,7 +349,10 @@ class Terms:
         for step in ppath:
             if step[0] == 'ts':
                 if step[1] in ('Some',) and step[2] == 0:
-                    t = ('some_of', t)
+                    if isinstance(t, tuple) and t and t[0] == 'iflet' and t[4] == ('None',) and isinstance(t[3], tuple) and t[3][0] == 'Some' and len(t[3]) == 2:
+                        t = t[3][1]      # the payload of `if let P = S { Some(a) } else { None }` is a
+                    else:
+                        t = ('some_of', t)
                 else:
                     t = ('payload', step[1], step[2], t)
             elif step[0] == 'tuple':
